@@ -307,7 +307,7 @@ func (x *Exec) modSetRec(fn *ssa.Function, visiting map[*ssa.Function]bool) *mod
 
 func (x *Exec) loopMods(fn *ssa.Function, li *loopInfo) *modSet {
 	ms := newModSet()
-	for b := range li.body {
+	for _, b := range sortedBlocks(li.body) {
 		for _, in := range b.Instrs {
 			x.modInstr(ms, in, map[*ssa.Function]bool{fn: true})
 		}
@@ -372,7 +372,7 @@ func (x *Exec) loopEnter(st *State, fr *Frame, li *loopInfo, from *ssa.BasicBloc
 	al.entryAlloc = st.allocCtr
 	// 2. havoc everything the loop may write
 	ms := x.loopMods(fr.fn, li)
-	for a := range ms.cells {
+	for _, a := range sortedAllocs(ms.cells) {
 		if c, ok := fr.allocCell[a]; ok {
 			if _, have := st.cells[c]; have {
 				st.cells[c] = x.havocCell(st, c, st.cells[c])
@@ -380,7 +380,7 @@ func (x *Exec) loopEnter(st *State, fr *Frame, li *loopInfo, from *ssa.BasicBloc
 		}
 	}
 	// free variables written by the loop body (loop inside a closure)
-	for i := range ms.frees {
+	for _, i := range sortedInts(ms.frees) {
 		if i < len(fr.free) {
 			if p, ok := fr.free[i].(*Place); ok && p.Kind == pkCell && len(p.Path) == 0 {
 				st.cells[p.Cell] = x.havocCell(st, p.Cell, st.cells[p.Cell])
@@ -388,7 +388,7 @@ func (x *Exec) loopEnter(st *State, fr *Frame, li *loopInfo, from *ssa.BasicBloc
 		}
 	}
 	// range iterators advanced in the loop
-	for b := range li.body {
+	for _, b := range sortedBlocks(li.body) {
 		for _, in := range b.Instrs {
 			if nx, ok := in.(*ssa.Next); ok {
 				if it, ok := fr.regs[nx.Iter].(*RangeIter); ok && it.Seen != nil {
@@ -406,8 +406,8 @@ func (x *Exec) loopEnter(st *State, fr *Frame, li *loopInfo, from *ssa.BasicBloc
 	x.assume(st, app(">=", na, oldAlloc))
 	st.allocCtr = na
 	names := map[string]bool{}
-	for n, s := range ms.arrays {
-		x.getArr(st, n, s)
+	for _, n := range sortedKeys(keysOf(ms.arrays)) {
+		x.getArr(st, n, ms.arrays[n])
 		names[n] = true
 	}
 	if ms.all {
